@@ -272,6 +272,21 @@ func (r *vfC04Raw) UnmarshalCQL(info TypeInfo, data []byte) error {
 	return nil
 }
 
+// long values are shown in digest form (length, first, last), as in the specification
+func vfC04ListR(xs []int) string {
+	if len(xs) > 64 {
+		return fmt.Sprintf("[#%d/%d/%d]", len(xs), xs[0], xs[len(xs)-1])
+	}
+	return "[" + vfC04Join(xs) + "]"
+}
+
+func vfC04BlobR(b []byte) string {
+	if len(b) > 64 {
+		return fmt.Sprintf("b#%d/%d/%d", len(b), b[0], b[len(b)-1])
+	}
+	return "b:" + vfC04Join(vfC04B2I(b))
+}
+
 func vfC04Join(xs []int) string {
 	p := make([]string, len(xs))
 	for i, x := range xs {
@@ -304,9 +319,9 @@ func vfC04Render(v interface{}) string {
 		if *x == nil {
 			return "null"
 		}
-		return "[" + vfC04Join(*x) + "]"
+		return vfC04ListR(*x)
 	case *[]byte:
-		return "b:" + vfC04Join(vfC04B2I(*x)) // a []byte destination cannot tell null from empty
+		return vfC04BlobR(*x) // a []byte destination cannot tell null from empty
 	case *map[int]int:
 		if *x == nil {
 			return "null"
@@ -321,9 +336,9 @@ func vfC04Render(v interface{}) string {
 	case bool:
 		return strconv.FormatBool(x)
 	case []int:
-		return "[" + vfC04Join(x) + "]"
+		return vfC04ListR(x)
 	case []byte:
-		return "b:" + vfC04Join(vfC04B2I(x))
+		return vfC04BlobR(x)
 	}
 	rv := reflect.ValueOf(v)
 	return vfC04Ascii(fmt.Sprintf("?%s:%v", rv.Type(), v))
@@ -445,6 +460,9 @@ func vfC04RenderAny(rv reflect.Value, fields []vfC04Field, ptr bool) string {
 	case reflect.String:
 		return "t:" + vfC04Join(vfC04S2I(rv.String()))
 	case reflect.Slice:
+		if rv.Type().Elem().Kind() == reflect.Uint8 {
+			return vfC04BlobR(rv.Bytes())
+		}
 		if rv.IsNil() {
 			if ptr {
 				return "null"
@@ -542,6 +560,10 @@ func vfC04Dest(kind string) interface{} {
 	switch kind {
 	case "blob":
 		return new([]byte)
+	case "list_blob":
+		return new([][]byte)
+	case "map_int_blob":
+		return new(map[int][]byte)
 	case "map_int_int":
 		return new(map[int]int)
 	case "int":
@@ -583,7 +605,7 @@ func vfC04Dests(plan []vfC04Plan, typed bool) []interface{} {
 
 func vfC04RenderDest(v interface{}, fields []vfC04Field) string {
 	s := vfC04Render(v)
-	if strings.HasPrefix(s, "?") && fields != nil {
+	if strings.HasPrefix(s, "?") {
 		rv := reflect.ValueOf(v)
 		return vfC04RenderAny(rv, fields, rv.Kind() == reflect.Ptr)
 	}
